@@ -775,6 +775,47 @@ pub fn gen_thin_bodies(files: &BTreeMap<String, syn::File>, out: &mut String) {
     writeln!(out, "\n(* every method whose body is one expression: (file, impl header or trait, method, body) as normalised token text *)\nDefinition gen_thin_bodies : list (String.string * String.string * String.string * String.string) :=\n  [{}]%string.", rows.join(";\n   ")).unwrap();
 }
 
+// ------------------------------------------------------------------ short multi-statement bodies (T1)
+
+/// the few short bodies that are neither one expression nor translated into one of the program languages:
+/// ArrayBuilder::assume_init, IntrusiveArrayBuilder::finish (src/internal.rs), const_transmute (src/lib.rs),
+/// statement by statement as normalised token text
+pub fn gen_small_bodies(files: &BTreeMap<String, syn::File>, out: &mut String) {
+    let esc = |s: String| s.replace('"', "\"\"");
+    let norm = |t: String| t.split_whitespace().collect::<Vec<_>>().join(" ");
+    let mut rows = vec![];
+    let stmts_of = |b: &syn::Block| -> Vec<String> { b.stmts.iter().map(|s| esc(norm(s.to_token_stream().to_string()))).collect() };
+    for (fname, owner, func) in [("internal.rs", "ArrayBuilder", "assume_init"), ("internal.rs", "IntrusiveArrayBuilder", "finish"), ("lib.rs", "", "const_transmute")] {
+        let Some(file) = files.get(fname) else { continue };
+        let mut found: Vec<Vec<String>> = vec![];
+        for it in &file.items {
+            match it {
+                Item::Fn(f) if owner.is_empty() && f.sig.ident == func => found.push(stmts_of(&f.block)),
+                Item::Impl(im) if !owner.is_empty() && im.trait_.is_none() => {
+                    let st = im.self_ty.to_token_stream().to_string();
+                    if st.split(|c: char| !c.is_alphanumeric() && c != '_').next() != Some(owner) {
+                        continue;
+                    }
+                    for ii in &im.items {
+                        if let ImplItem::Fn(f) = ii {
+                            if f.sig.ident == func {
+                                found.push(stmts_of(&f.block));
+                            }
+                        }
+                    }
+                }
+                _ => {}
+            }
+        }
+        if found.len() != 1 {
+            println!("ERROR GenSigs.v small_bodies {}::{}: found {} definitions", owner, func, found.len());
+            continue;
+        }
+        rows.push(format!("(\"{}\", \"{}\", [{}])", owner, func, found[0].iter().map(|x| format!("\"{}\"", x)).collect::<Vec<_>>().join(";\n      ")));
+    }
+    writeln!(out, "\n(* the short multi-statement bodies not translated into a program language: (owner, fn, statements) *)\nDefinition gen_small_bodies : list (String.string * String.string * list String.string) :=\n  [{}]%string.", rows.join(";\n   ")).unwrap();
+}
+
 // ------------------------------------------------------------------ impl_tuple! bodies (T1)
 
 /// the two `fn from(..) -> Self { .. }` bodies inside macro_rules! impl_tuple, as normalised token text
